@@ -126,6 +126,14 @@ class Ctx:
             inner = T.strip(t[1][1])
             while inner[0] == "call" and (inner[1].endswith("::branch") or inner[1].endswith("::ok") or inner[1].endswith("::map_err")) and inner[2]:
                 inner = T.strip(inner[2][0])
+            # a merged Result / Option of which exactly one alternative carries a value (`match r { Ok(v) => Ok(v), Err(_) => Err(e) }`,
+            # what `r.map_err(|_| e)` stands for): the payload is that alternative's
+            if inner[0] == "phi":
+                alts = [T.strip(a) for a in inner[1]]
+                if all(a[0] == "agg" and a[3] in ("Ok", "Some", "Err", "None") for a in alts):
+                    good = [a for a in alts if a[3] in ("Ok", "Some") and len(a[4]) == 1]
+                    if len(good) == 1:
+                        return self.lin(good[0][4][0], g, depth + 1)
             if inner[0] == "call" and inner[1].endswith("::try_from") and inner[2]:
                 return self.lin(inner[2][0], g, depth + 1)
             if inner[0] == "call" and (inner[1].endswith("::checked_add")) and len(inner[2]) == 2:
